@@ -98,23 +98,114 @@ fn redirect_family(g: &mut G, ctx: &RunCtx) -> RunReport {
     }
 }
 
+/// Same-host redirect from http to https while only one of the two schemes has a proxy: the proxy
+/// is selected per request URL, and the scheme is part of that decision.
+fn scheme_change_family(g: &mut G, ctx: &RunCtx) -> RunReport {
+    let http_only = g.chance(1, 2); // true: only http_proxy configured; false: only https_proxy
+    let status = *g.pick(&[301u16, 302, 307, 308]);
+    let sim = Sim::new(ctx.sim_config());
+    let seen = Arc::new(Mutex::new(Seen::default()));
+    sim.add_host("origin.test", vec!["10.0.0.1".parse().unwrap()]);
+    sim.add_host("proxy.test", vec!["10.0.0.9".parse().unwrap()]);
+    let lat = ConnectBehaviour::Accept { latency_ns: NS_PER_MS };
+    let redirecting = move |_r: &crate::httpref::ParsedRequest, _c: usize| -> Script {
+        let mut s = Script::default();
+        s.acts.push(Act::Send(format!("HTTP/1.1 {} Moved\r\nLocation: https://origin.test/next\r\nContent-Length: 0\r\n\r\n", status).into_bytes()));
+        s.acts.push(Act::Fin);
+        s
+    };
+    // hop 1 is answered either by the origin (direct) or by the forward proxy; hop 2 only has to be dialled
+    let silent = || -> Box<dyn Peer> {
+        Box::new(crate::peers::RawPeer { script: Script::default(), on_first_bytes: true, started: false, received: Arc::new(Mutex::new(Vec::new())), faults: None, marker: None, opaque: true })
+    };
+    {
+        let s1 = seen.clone();
+        sim.add_listener("10.0.0.1".parse().unwrap(), 80, lat, Some(Box::new(move |_i| Box::new(HttpPeer::new(Arc::new(redirecting), s1.clone())))));
+        sim.add_listener("10.0.0.1".parse().unwrap(), 443, lat, Some(Box::new(move |_i| silent())));
+        let s2 = seen.clone();
+        let mut n = 0;
+        sim.add_listener(
+            "10.0.0.9".parse().unwrap(),
+            3128,
+            lat,
+            Some(Box::new(move |_i| {
+                n += 1;
+                // with only an http proxy the first connection to the proxy is the forward request
+                if http_only && n == 1 {
+                    Box::new(HttpPeer::new(Arc::new(redirecting), s2.clone()))
+                } else {
+                    silent()
+                }
+            })),
+        );
+    }
+    let out = sim.run(|| {
+        let pu = url::Url::parse("http://proxy.test:3128").unwrap();
+        let pb = if http_only { attohttpc::ProxySettings::builder().http_proxy(pu) } else { attohttpc::ProxySettings::builder().https_proxy(pu) };
+        let _ = attohttpc::get("http://origin.test/start").proxy_settings(pb.build()).read_timeout(std::time::Duration::from_millis(100)).danger_accept_invalid_certs(true).send();
+    });
+    let mut stats = Stats::default();
+    stats.absorb(&out.history);
+    let verdict = (|| -> Verdict {
+        match &out.result {
+            None => return violation("hang", "torn down"),
+            Some(Err(m)) => return violation("panic", m.clone()),
+            Some(Ok(())) => {}
+        }
+        let want: [&str; 2] = if http_only { ["10.0.0.9:3128", "10.0.0.1:443"] } else { ["10.0.0.1:80", "10.0.0.9:3128"] };
+        let got: Vec<String> = out.history.conns.iter().map(|c| c.addr.to_string()).collect();
+        if got.len() < 2 {
+            return violation("scheme-change:hops", format!("connections {:?}", got));
+        }
+        for i in 0..2 {
+            if got[i] != want[i] {
+                return violation(
+                    format!("wrong-peer-dialled:scheme-change-hop{}:{}", i, if want[i].starts_with("10.0.0.9") { "should-use-proxy" } else { "should-go-direct" }),
+                    format!("http://origin.test/start -> {} -> https://origin.test/next with only {} configured: dialled {:?}, expected {:?}", status, if http_only { "http_proxy" } else { "https_proxy" }, got, want),
+                );
+            }
+        }
+        // the tunnelled hop must start with CONNECT, the direct one with a TLS handshake record
+        let first = out.history.conns[1].client_bytes();
+        let is_connect = first.starts_with(b"CONNECT origin.test:443 ");
+        if http_only == is_connect {
+            return violation("scheme-change:second-hop-form", format!("second hop starts with {:?}", crate::httpref::short(&first)));
+        }
+        Verdict::Pass
+    })();
+    RunReport {
+        verdict,
+        shape: format!("scheme-change/{}/{}", if http_only { "http-proxy-only" } else { "https-proxy-only" }, status),
+        nontrivial: true,
+        stats,
+        sched_tape: out.sched_tape,
+        describe: if ctx.describe { format!("scheme-change family: http://origin.test/start -> {} -> https://origin.test/next, only {} configured", status, if http_only { "http_proxy" } else { "https_proxy" }) } else { String::new() },
+    }
+}
+
 pub fn scenario(g: &mut G, ctx: &RunCtx) -> RunReport {
     if g.chance(1, 8) {
         g.probe("redirect-crosses-no-proxy-boundary");
         return redirect_family(g, ctx);
     }
+    if g.chance(1, 10) {
+        g.probe("same-host-redirect-changes-scheme");
+        return scheme_change_family(g, ctx);
+    }
     let https = g.chance(1, 2);
     let (host, ip): (&str, &str) = *g.pick(&[("origin.test", "10.0.0.1"), ("10.0.0.1", "10.0.0.1"), ("[2001:db8::1]", "2001:db8::1"), ("ORIGIN.test", "10.0.0.1")]);
     let default_port = if https { 443u16 } else { 80 };
-    let port: Option<u16> = match g.below(4) {
+    let port: Option<u16> = match g.below(5) {
         0 => Some(if https { 8443 } else { 8080 }),
         1 => Some(default_port),
+        // the *other* scheme's default port is an ordinary explicit port here
+        2 => Some(if https { 80 } else { 443 }),
         _ => None,
     };
     let path = *g.pick(&["", "/", "/a/b", "/a%20b/c", "/über"]);
     let query = *g.pick(&["", "?x=1", "?x=1&y=a+b", "?"]);
     let fragment = *g.pick(&["", "", "#frag", "#a/b?c"]);
-    let userinfo = *g.pick(&["", "", "user:secretpw@", "user@"]);
+    let userinfo = *g.pick(&["", "", "user:secretpw@", "user@", ":secretpw@", "user:@"]);
     let url_s = format!("{}://{}{}{}{}{}{}", if https { "https" } else { "http" }, userinfo, host, port.map(|p| format!(":{}", p)).unwrap_or_default(), path, query, fragment);
     let proxy_kind = g.below(3); // 0 none, 1 http proxy, 2 https proxy
     let proxy_cred = g.chance(1, 3);
@@ -137,11 +228,22 @@ pub fn scenario(g: &mut G, ctx: &RunCtx) -> RunReport {
     // origin listeners on both addresses and all ports
     for oip in ["10.0.0.1", "2001:db8::1"] {
         let oip: IpAddr = oip.parse().unwrap();
-        for p in [80u16, 8080] {
+        for p in [80u16, 8080, 443] {
+            if https && p == 443 || !https && p == 80 && false {
+                continue;
+            }
+            if https && p == 80 {
+                continue;
+            }
             let seen = seen_origin.clone();
             sim.add_listener(oip, p, lat, Some(Box::new(move |_i| Box::new(HttpPeer::new(Arc::new(|_r, _c| ok()), seen.clone())))));
         }
-        for p in [443u16, 8443] {
+        for p in [443u16, 8443, 80] {
+            if !https {
+                if p == 80 || p == 443 {
+                    continue;
+                }
+            }
             let seen = seen_origin.clone();
             let tl = tls_log.clone();
             sim.add_listener(oip, p, lat, Some(Box::new(move |i| Box::new(TlsPeer::new("good", Box::new(HttpPeer::new(Arc::new(|_r, _c| ok()), seen.clone())), tl.clone(), i.conn)))));
@@ -278,7 +380,7 @@ pub fn scenario(g: &mut G, ctx: &RunCtx) -> RunReport {
                         if r.target.contains('#') {
                             return violation("absolute-target-carries-fragment", format!("request target {:?} sent to the proxy for {}", r.target, url_s));
                         }
-                        if r.target.contains("secretpw") || r.target.contains("user@") || r.target.contains("user:") {
+                        if r.target.contains("secretpw") || r.target.contains("user@") || r.target.contains("user:") || r.target.contains('@') {
                             return violation("absolute-target-carries-credentials", format!("request target {:?} sent to the proxy for {}", r.target, url_s));
                         }
                         let t = r.target.trim_end_matches('?');
